@@ -126,3 +126,31 @@ pub fn vk_fmt_write(_out: &mut dyn core::fmt::Write, _args: core::fmt::Arguments
 pub fn vk_fmt_format(_args: core::fmt::Arguments<'_>) -> String {
     String::new()
 }
+
+/// Stub target for std::fmt::format where only the END of the formatted text matters (file-name suffixes):
+/// runs the real core::fmt::write into a writer that remembers just the last piece written (no copying, no
+/// growing String: `String` growth inside `format!` is what CBMC does not get through) and returns that piece.
+#[cfg(kani)]
+#[allow(dead_code)]
+pub fn vk_fmt_format_lastpiece(args: core::fmt::Arguments<'_>) -> String {
+    struct Last {
+        ptr: *const u8,
+        len: usize,
+    }
+    impl core::fmt::Write for Last {
+        fn write_str(&mut self, s: &str) -> core::fmt::Result {
+            if !s.is_empty() {
+                self.ptr = s.as_ptr();
+                self.len = s.len();
+            }
+            Ok(())
+        }
+    }
+    let mut w = Last { ptr: core::ptr::null(), len: 0 };
+    let _ = core::fmt::write(&mut w, args);
+    if w.len == 0 {
+        return String::new();
+    }
+    let piece: &str = unsafe { core::str::from_utf8_unchecked(core::slice::from_raw_parts(w.ptr, w.len)) };
+    String::from(piece)
+}
